@@ -187,7 +187,7 @@ def run(ctx):
     # n = 10 (two trailing positions): adjacent transpositions incl. (8 9), and L, R with a swap of the trailing pair - depth-limited
     ten = [("coxeter10_depth4", PermutationGroups.coxeter(10), (4,)),
            ("lr_swap89_depth5", CayleyGraphDef.create([[1, 2, 3, 4, 5, 6, 7, 8, 9, 0], [9, 0, 1, 2, 3, 4, 5, 6, 7, 8], [0, 1, 2, 3, 4, 5, 6, 7, 9, 8]]), (5,))]
-    runs = [(name, d, (10**6, 5)) for name, d in fams[: ctx.budget(6, 10)]] + ten
+    runs = [(name, d, (10**6, 5, 0, 1)) for name, d in fams[: ctx.budget(6, 10)]] + ten        # depth limits 0 and 1 are limits like any other
     for name, d, depths in runs:
         graph = CayleyGraph(d, device="cpu")
         for maxd in depths:
